@@ -297,6 +297,10 @@ func (m *monitor) Snapshot() []kemtypes.ObjectAndFilterResult {
 // EnableKubeEventCb allows execution of event callback for all informers.
 // Also executes eventCb for events accumulated during "Synchronization" phase.
 func (m *monitor) EnableKubeEventCb() {
+	// Enable events for future VaryingInformers first: informers of a namespace stored
+	// after the loop below and before the flag is set would never be enabled.
+	m.eventsEnabled = true
+	verifhook.At("mon.afterFlag", m)
 	for _, informer := range m.ResourceInformers {
 		informer.enableKubeEventCb()
 	}
@@ -306,9 +310,6 @@ func (m *monitor) EnableKubeEventCb() {
 			informer.enableKubeEventCb()
 		}
 	})
-	verifhook.At("mon.beforeFlag", m)
-	// Enable events for future VaryingInformers.
-	m.eventsEnabled = true
 }
 
 // CreateInformersForNamespace creates informers bounded to the namespace. If no matchName is specified,
